@@ -91,6 +91,8 @@ pub fn type_key(ty: &LType) -> String {
         F16 => "Float16".into(),
         F32 => "Float32".into(),
         F64 => "Float64".into(),
+        // Parquet DECIMAL needs 0 <= scale (<= precision): no direct mapping for negative scales
+        Decimal { s, .. } if *s < 0 => "Decimal(negative scale)".into(),
         Decimal { width, p, .. } => format!("Decimal{}({})", width, if *p <= 9 { "p<=9" } else if *p <= 18 { "p<=18" } else if *p <= 38 { "p<=38" } else { "p>38" }),
         Date32 => "Date32".into(),
         Date64 => "Date64".into(),
@@ -145,9 +147,12 @@ pub fn known_defect(ty: &LType) -> Option<&'static str> {
         use LType::*;
         let g = grid();
         match ty {
+            // schema conversion maps precision 1 to INT64 (`precision > 1 && precision <= 9` => INT32), and the INT64
+            // leaf writer has no Decimal32 arm
+            Decimal { width: 32, p: 1, .. } => Some("C05-decimal32-precision1"),
             Dict { value, .. } => {
                 let k = type_key(value);
-                g.defects.iter().find(|d| d.1.contains(&k)).map(|d| d.0.as_str())
+                g.defects.iter().find(|d| d.1.contains(&k)).map(|d| d.0.as_str()).or_else(|| walk(value, false))
             }
             Ree { value, .. } => {
                 if !top {
@@ -165,6 +170,25 @@ pub fn known_defect(ty: &LType) -> Option<&'static str> {
         }
     }
     walk(ty, true)
+}
+
+/// Reported finding C05-reader-unmasked-nulls: a non-nullable Struct / FixedSizeList field that has a non-nullable
+/// child and sits (slot-aligned, i.e. through structs / fixed-size lists / list items) below a nullable ancestor comes
+/// back from the reader without validity while its child carries the ancestor's nulls ("unmasked nulls for a
+/// non-nullable field", which the checked constructors and the independent validator reject).
+pub fn unmasked_null_shape(f: &LField) -> bool {
+    fn walk(f: &LField, chain_nullable: bool) -> bool {
+        use LType::*;
+        let here = chain_nullable || f.nullable;
+        match &f.ty {
+            Struct(fs) => (!f.nullable && chain_nullable && fs.iter().any(|c| !c.nullable)) || fs.iter().any(|c| walk(c, here)),
+            FixedList(c, n) => (*n > 0 && !f.nullable && chain_nullable && !c.nullable) || walk(c, here),
+            List(c, _) => walk(c, false),
+            Map { key, val, .. } => walk(key, false) || walk(val, false),
+            _ => false,
+        }
+    }
+    walk(f, false)
 }
 
 /// shapes outside the property's stated domain that are neither claimed to work nor to be rejected
@@ -252,6 +276,11 @@ pub fn legal_encodings(phys: Phys, leaf: &LType) -> Vec<Encoding> {
     g.encodings.get(phys_name(phys)).map(|v| v.iter().map(|s| encoding_of(s)).collect()).unwrap_or_else(|| vec![Encoding::PLAIN])
 }
 
+/// true with probability n/256, but *false* for small tape bytes: optional features are off on an exhausted / shrunk tape
+pub fn rare(t: &mut Tape, n: u32) -> bool {
+    (t.u8() as u32) + n >= 256
+}
+
 pub fn gen_compression(t: &mut Tape) -> Compression {
     match t.below(12) {
         0..=3 => Compression::UNCOMPRESSED,
@@ -272,6 +301,8 @@ pub struct PropOpts {
     pub stats_focus: bool,
     /// total number of rows that will be written (bounds the number of row groups / pages)
     pub rows: usize,
+    /// never enable content-defined chunking (known finding C05-cdc-listview)
+    pub no_cdc: bool,
 }
 
 #[derive(Clone, Debug)]
@@ -317,7 +348,7 @@ pub fn gen_props(t: &mut Tape, descr: &SchemaDescriptor, leaves: &[LType], o: &P
     b = b.set_writer_version(if v2 { WriterVersion::PARQUET_2_0 } else { WriterVersion::PARQUET_1_0 });
     d.insert("version".into(), json!(if v2 { 2 } else { 1 }));
 
-    let dict_default = !t.chance(80);
+    let dict_default = !rare(t, 80);
     b = b.set_dictionary_enabled(dict_default);
     d.insert("dict".into(), json!(dict_default));
 
@@ -333,7 +364,7 @@ pub fn gen_props(t: &mut Tape, descr: &SchemaDescriptor, leaves: &[LType], o: &P
     // pages: row-count limit is "best effort based on write_batch_size": small batches make it bite
     let (page_rows, wbs) = if o.stats_focus {
         let pr = 1 + t.below(40);
-        let wbs = if t.chance(200) { 1 + t.below(pr) } else { *t.pick(&[1024usize, 64, 7]) };
+        let wbs = if rare(t, 200) { 1 + t.below(pr) } else { *t.pick(&[1024usize, 64, 7]) };
         (pr, wbs)
     } else {
         let pr = *t.pick(&[20_000usize, 1, 2, 3, 7, 20, 100, 1000, 33]);
@@ -359,11 +390,11 @@ pub fn gen_props(t: &mut Tape, descr: &SchemaDescriptor, leaves: &[LType], o: &P
     };
     b = b.set_max_row_group_row_count(max_rg_rows);
     d.insert("max_rg_rows".into(), json!(max_rg_rows));
-    let max_rg_bytes = if rows <= 400 && t.chance(48) { Some(*t.pick(&[1000usize, 64, 10_000, 1, 300])) } else { None };
+    let max_rg_bytes = if rows <= 400 && rare(t, 48) { Some(*t.pick(&[1000usize, 64, 10_000, 1, 300])) } else { None };
     b = b.set_max_row_group_bytes(max_rg_bytes);
     d.insert("max_rg_bytes".into(), json!(max_rg_bytes));
 
-    let codec = if o.stats_focus && !t.chance(48) { Compression::UNCOMPRESSED } else { gen_compression(t) };
+    let codec = if o.stats_focus && !rare(t, 48) { Compression::UNCOMPRESSED } else { gen_compression(t) };
     b = b.set_compression(codec);
     d.insert("compression".into(), json!(format!("{:?}", codec)));
 
@@ -374,7 +405,7 @@ pub fn gen_props(t: &mut Tape, descr: &SchemaDescriptor, leaves: &[LType], o: &P
     };
     b = b.set_statistics_enabled(stats_default);
     d.insert("stats".into(), json!(stats_name(stats_default)));
-    let page_header_stats = t.chance(if o.stats_focus { 128 } else { 64 });
+    let page_header_stats = rare(t, if o.stats_focus { 128 } else { 64 });
     b = b.set_write_page_header_statistics(page_header_stats);
     d.insert("page_header_stats".into(), json!(page_header_stats));
 
@@ -385,38 +416,38 @@ pub fn gen_props(t: &mut Tape, descr: &SchemaDescriptor, leaves: &[LType], o: &P
     d.insert("stats_truncate".into(), json!(stats_truncate));
     d.insert("index_truncate".into(), json!(index_truncate));
 
-    let bloom_default = t.chance(if o.stats_focus { 160 } else { 64 });
+    let bloom_default = rare(t, if o.stats_focus { 160 } else { 64 });
     let gen_bloom = |t: &mut Tape| -> (f64, u64) { (*t.pick(&[0.05f64, 0.5, 0.01, 0.001, 0.9]), *t.pick(&[100u64, 1, 10, 5000, 3, 40_000])) };
     if bloom_default {
         let (fpp, ndv) = gen_bloom(t);
         b = b.set_bloom_filter_enabled(true).set_bloom_filter_fpp(fpp).set_bloom_filter_max_ndv(ndv);
         d.insert("bloom".into(), json!({"fpp": fpp, "ndv": ndv}));
     }
-    if t.chance(64) {
+    if rare(t, 64) {
         b = b.set_bloom_filter_position(BloomFilterPosition::End);
         d.insert("bloom_at_end".into(), json!(true));
     }
-    let offset_index_disabled = t.chance(24);
+    let offset_index_disabled = rare(t, 24);
     if offset_index_disabled {
         b = b.set_offset_index_disabled(true);
         d.insert("offset_index_disabled".into(), json!(true));
     }
-    if t.chance(24) {
+    if rare(t, 24) {
         b = b.set_write_row_group_number_distinct_values(true);
         d.insert("ndv_stats".into(), json!(true));
     }
-    if t.chance(16) {
+    if rare(t, 16) {
         b = b.set_write_path_in_schema(false);
         d.insert("no_path_in_schema".into(), json!(true));
     }
-    if v2 && t.chance(32) {
+    if v2 && rare(t, 32) {
         let thr = *t.pick(&[0.5f64, 2.0, 0.9]);
         b = b.set_data_page_v2_compression_ratio_threshold(thr);
         d.insert("v2_ratio".into(), json!(thr));
     }
     // content-defined chunking: documented panics (min == 0, max <= min) and the mask-width constraint
     // (floor(log2((max-min)/16)) - norm_level in 1..=63) are respected by construction
-    let cdc = t.chance(if o.stats_focus { 24 } else { 48 });
+    let cdc = rare(t, if o.stats_focus { 24 } else { 48 }) && !o.no_cdc;
     if cdc {
         let min = *t.pick(&[16usize, 1, 64, 256, 1024]);
         let delta = *t.pick(&[64usize, 256, 1024, 4096]);
@@ -434,7 +465,7 @@ pub fn gen_props(t: &mut Tape, descr: &SchemaDescriptor, leaves: &[LType], o: &P
         let leaf = &leaves[i];
         let mut f = ColFacts { path: path.string(), stats: stats_default, bloom: bloom_default, explicit_encoding: false, dict: dict_default };
         let mut m = serde_json::Map::new();
-        if t.chance(110) {
+        if rare(t, 110) {
             let legal = legal_encodings(c.physical_type(), leaf);
             let e = *t.pick(&legal);
             b = b.set_column_encoding(path.clone(), e);
@@ -444,38 +475,38 @@ pub fn gen_props(t: &mut Tape, descr: &SchemaDescriptor, leaves: &[LType], o: &P
             }
             m.insert("enc".into(), json!(format!("{:?}", e)));
         }
-        if t.chance(64) {
+        if rare(t, 64) {
             f.dict = !dict_default;
             b = b.set_column_dictionary_enabled(path.clone(), f.dict);
             m.insert("dict".into(), json!(f.dict));
         }
-        if t.chance(32) {
+        if rare(t, 32) {
             let l = *t.pick(&[16usize, 1, 100, 1 << 20]);
             b = b.set_column_dictionary_page_size_limit(path.clone(), l);
             m.insert("dict_page_limit".into(), json!(l));
         }
-        if t.chance(32) {
+        if rare(t, 32) {
             let l = *t.pick(&[64usize, 1, 1000, 1 << 20]);
             b = b.set_column_data_page_size_limit(path.clone(), l);
             m.insert("page_bytes".into(), json!(l));
         }
-        if t.chance(40) {
+        if rare(t, 40) {
             let cc = gen_compression(t);
             b = b.set_column_compression(path.clone(), cc);
             m.insert("compression".into(), json!(format!("{:?}", cc)));
         }
-        if t.chance(64) {
+        if rare(t, 64) {
             f.stats = *t.pick(&[EnabledStatistics::Page, EnabledStatistics::Chunk, EnabledStatistics::None]);
             b = b.set_column_statistics_enabled(path.clone(), f.stats);
             m.insert("stats".into(), json!(stats_name(f.stats)));
         }
-        if t.chance(32) {
+        if rare(t, 32) {
             let v = t.bool();
             b = b.set_column_write_page_header_statistics(path.clone(), v);
             m.insert("page_header_stats".into(), json!(v));
         }
-        if t.chance(if o.stats_focus { 96 } else { 40 }) {
-            if f.bloom && t.chance(64) {
+        if rare(t, if o.stats_focus { 96 } else { 40 }) {
+            if f.bloom && rare(t, 64) {
                 f.bloom = false;
                 b = b.set_column_bloom_filter_enabled(path.clone(), false);
                 m.insert("bloom".into(), json!(false));
